@@ -66,7 +66,7 @@ def run(ctx):
             want = {
                 "ident": r"^self\.ident$", "ty": r"^self\.ty$", "post_transform": r"^self\.post_transform$",
                 "skip": r"^unwrap_or_default\(self\.skip\)$", "multiple": r"^unwrap_or_default\(self\.multiple\)$",
-                "flatten": r"^darling_core::util::flag::Flag::is_present\(self\.flatten\)$",
+                "flatten": r"^is_some\(self\.flatten\.0\)$",
                 "default_expression": r"^darling_core::options::input_field::InputField::as_codegen_default\(self\)$",
                 "name_in_attr": r"^core::option::Option::<T>::map_or_else\(self\.attr_name, closure .*, fn alloc::borrow::Cow::Borrowed\)$",
                 "with_callable": r"^core::option::Option::<T>::map_or_else\(core::option::Option::<T>::map\(self\.with, closure .*\), closure .*, fn alloc::borrow::Cow::Borrowed\)$",
@@ -263,7 +263,7 @@ def _shape_of(pc):
     s = " ".join(a for d in pc for a in d)
     if "discr(self.base.data)=Enum" in s:
         return "enum"
-    if "is_unit(" in s and "=True" in s.split("is_unit(")[1][:80]:
+    if re.search(r"discr\([^=]*\.style\)=Unit\b", s):
         return "unit struct"
     if "Eq(len(" in s and "1_usize)=True" in s:
         return "newtype struct"
